@@ -1,4 +1,4 @@
----- MODULE WasiFd_TTrace_1790561928 ----
+---- MODULE WasiFd_TTrace_1790562294 ----
 EXTENDS Sequences, TLCExt, Toolbox, Naturals, TLC, WasiFd
 
 _expression ==
@@ -75,7 +75,7 @@ _next ==
 \* to `JsonSerialize`. For example, a sub-sequence of _TETrace.
     \* ASSUME
     \*     LET J == INSTANCE Json
-    \*         IN J!JsonSerialize("WasiFd_TTrace_1790561928.json", _TETrace)
+    \*         IN J!JsonSerialize("WasiFd_TTrace_1790562294.json", _TETrace)
 
 =============================================================================
 
@@ -135,7 +135,7 @@ Parsing and semantic processing can take forever if the trace below is long.
 \*---- MODULE WasiFd_TETrace ----
 \*EXTENDS IOUtils, TLC, WasiFd
 \*
-\*trace == IODeserialize("WasiFd_TTrace_1790561928.bin", TRUE)
+\*trace == IODeserialize("WasiFd_TTrace_1790562294.bin", TRUE)
 \*
 \*=============================================================================
 \*
@@ -154,7 +154,7 @@ trace ==
 
 =============================================================================
 
----- CONFIG WasiFd_TTrace_1790561928 ----
+---- CONFIG WasiFd_TTrace_1790562294 ----
 CONSTANTS
     Variant = "AsCoded"
     MaxOpens = 3
@@ -181,4 +181,4 @@ CONSTANT
 ALIAS
     _expression
 =============================================================================
-\* Generated on Mon Sep 28 02:18:48 UTC 2026
+\* Generated on Mon Sep 28 02:24:55 UTC 2026
